@@ -117,7 +117,14 @@ func runC17(c *fw.Ctx) {
 	interesting := func(s string) bool { return strings.ContainsAny(s, "\"\\ \t#/*") }
 
 	read := func(h paramHost, text string) (val string, o drv.Outcome, found bool) {
-		o = drv.RunMem("root.jst", text, opt)
+		// the file object is read twice: "what is written is what the catalog has" also the second
+		// time, and reading does not write to what was written
+		var o2 drv.Outcome
+		var intact bool
+		o, o2, intact = drv.RunFileTwice("root.jst", text, opt)
+		if !o.Crashed() && !o2.Crashed() && (!intact || o.Kind != o2.Kind || o.JSON != o2.JSON) {
+			c.Violate("second-read-differs", "C17:second-read:"+h.name, fmt.Sprintf("%s: the same file object read twice gives %s and then %s (input bytes intact: %v)", h.name, o.Short(), o2.Short(), intact), map[string]interface{}{"text": text})
+		}
 		if !o.OK() {
 			return "", o, false
 		}
